@@ -116,6 +116,30 @@ def replay(o, scratch):
             return 1 if bad else 0
         finally:
             im.close()
+    if kind == "ids-after-crash":
+        from .extra import _items
+        from .impl import hx
+        im = Impl(scratch)
+        try:
+            for l in lines:
+                im.exec(l)
+            k, j = o["cut"]
+            a = im.exec("cut %d %d" % (k, j))[0]
+            bad = False
+            if a == "ok":
+                pre = im.exec("? prefixiter")[0]
+                ids = [int(x.rsplit(":", 1)[1]) for x in _items(pre)] if pre.startswith("ok") else []
+                ans = im.exec("create [%s]" % hx(b"s:http|h:org|h:freshsite|"))[0]
+                head = ans.split("we={", 1)[1].split(":", 1)[0] if ans.startswith("ok pages=") and "we={" in ans else ""
+                print("cut after %d writes: ids attached in the reopened index %s, creation answers %s" % (k, sorted(set(ids)), ans[:80]))
+                bad = head.isdigit() and bool(ids) and int(head) <= max(ids)
+                im.exec("uncut")
+            print("FAILS (the id is not fresh)" if bad else "PASSES")
+            return 1 if bad else 0
+        finally:
+            if im.t is not None:
+                im._uncut()
+            im.close()
     if kind == "co":
         return replay_co(o, scratch)
     print("unknown replay kind", kind)
